@@ -63,7 +63,7 @@ def descriptors(c):
     """(dir, seq, len, adler) per message in send order"""
     out = []
     for i, ln in enumerate(c["sizes"]):
-        if c["pat"] == "REQ_REP":
+        if c["pat"] in ("REQ_REP", "DUPLEX"):
             if i % 2 == 0:
                 out.append((5, i, ln, adler(payload(1, i, ln))))
             else:
@@ -96,6 +96,17 @@ def size_mix(rng, tier, n):
         if tail:
             tail[rng.randrange(len(tail))] = rng.choice(big)
     return head + tail
+
+
+def duplex_cases(rng, tier):
+    """full-duplex traffic with big messages: each session reads >= 512 KiB chunks while it has egress work of its own"""
+    out = []
+    for tr in (("tcp", "ipc") if tier == "quick" else ("tcp", "ipc", "tcp", "tcp", "ipc")):
+        n = 24 if tier == "quick" else 64
+        sizes = [rng.choice([65536, 200000, 524288, 1048576, 1048576, 300, 16]) for _ in range(n)]
+        out.append({"k": "pair", "pat": "DUPLEX", "tr": tr, "threads": 2, "when": 2, "sizes": sizes, "sopts": {}, "ropts": {},
+                    "send_binds": False, "idle_ms": 8000})
+    return out
 
 
 def gen_pairs(rng, tier, n):
@@ -550,7 +561,7 @@ def main(argv):
     run_traces(res, gen_traces(rng, tier))
     res.extra["phase_s"]["kindC"] = round(C.now() - res.t0, 1)
     # kind D (corpus first)
-    pcases = C.load_corpus(PROP, "pair") + gen_pairs(rng, tier, 70 if quick else 1000)
+    pcases = C.load_corpus(PROP, "pair") + duplex_cases(rng, tier) + gen_pairs(rng, tier, 70 if quick else 1000)
     for c in pcases:
         res.count("pair:%s:%s" % (c["pat"], c["tr"]))
         res.count("when:%d" % c["when"])
